@@ -38,6 +38,9 @@ def obligations(tier):
                        bounds="kind %d; 2 steps (register | parse) + final parse; 2 versions x 3 names each" % k))
     obls.append(CH("reference_property_naming", H, "ref_property_rules", t, mode="E1s", functions=["stix2.registration._validate_ref_props", "stix2.registration._validate_props"] + F[:4],
                    stubs=[REG], bounds="4 kinds x 2 versions x 14 property names (7 reference-named with 1..4 underscores, 7 look-alikes) x 6 property types"))
+    obls.append(CH("custom_types_every_property_kind", H, "custom_property_kinds", t, mode="E1s", functions=["stix2.properties.ListProperty.clean"] + F[:3], stubs=[REG],
+                   bounds="13 property kinds x single / ListProperty x custom object / observable / property-extension: a legal value is accepted, serialized, and the "
+                          "serialization strictly parses back to an equal object"))
     obls.append(CH("marking_definition_uses_registered_class", H, "marking_definition_forms", t, mode="E1s", functions=["stix2.v21.common.MarkingDefinition.__init__",
                    "stix2.v20.common.MarkingDefinition.__init__", "stix2.v21.common.MarkingProperty.clean"] + F[:2], stubs=[REG],
                    bounds="2 versions x 3 definition types (two registered custom markings, statement) x 7 forms of the definition (dict, instance of each registered "
